@@ -132,12 +132,14 @@ PROFILES = {
                               weights=W(lift2=6, liftn=2, merge=6, snapshot=3, mapc=3, map=3, csink=4, ssink=4, hold=2, switchs=1, switchc=1, sloop=0.7, cloop=0.7)))],
     "C04": [("cells", dict(samples=0.9, n_txn=(5, 20), intxn_defs=0.3, n_listen=(0, 2),
                            weights=W(hold=4, holdlazy=1.5, accum=3, collect=3, snapshot=4, csink=3, gate=1.5, mapc=1, lift2=1)))],
-    "C05": [("switch-defer", dict(n_defs=(5, 11), sends_per_txn=(1, 4), max_defer=2, samples=0.3, wfchecks=0.3,
+    "C05": [("switch-dynamic", dict(n_defs=(4, 10), sends_per_txn=(1, 4), samples=0.3, wfchecks=0.2,
+                                    weights=W(switchdyn=6, switchs=2, csink=5, ssink=4, hold=2, map=2, merge=2, snapshot=1))),
+            ("switch-defer", dict(n_defs=(5, 11), sends_per_txn=(1, 4), max_defer=2, samples=0.3, wfchecks=0.3,
                                   weights=W(switchs=6, switchc=2, defer=5, split=1, csink=4, ssink=3, map=2, hold=2, merge=2))),
             ("switch", dict(n_defs=(5, 12), samples=0.5, intxn_defs=0.2, sends_per_txn=(1, 4),
                             weights=W(switchs=4, switchc=4, csink=4, hold=3, ssink=4, lift2=1, accum=1)))],
     "C10": [("listeners", dict(n_listen=(2, 6), unlisten=0.5, unlisten_in_txn=0.5, nest=0.8, intxn_defs=0.6, drops=0.3, gcs=0.3, weak=0.15, weights=W(value=2, hold=3, csink=3)))],
-    "C11": [("loops", dict(n_defs=(3, 9), samples=0.4, weights=W(sloop=2.5, cloop=2.5, hold=3, snapshot=4, accum=1, merge=4, gate=1, lift2=2, mapc=2))),
+    "C11": [("loops", dict(n_defs=(3, 9), samples=0.4, nested_cloops=0.5, weights=W(sloop=2.5, cloop=2.5, hold=3, snapshot=4, accum=1, merge=4, gate=1, lift2=2, mapc=2))),
             ("loops-misuse", dict(n_defs=(3, 8), malformed=True, weights=W(sloop=2, cloop=2, hold=3, snapshot=3)))],
     "C12": [("defer-chains", dict(posts=0.3, samples=0.4, obs=0.4, max_defer=3, weights=W(defer=6, split=3, hold=3, csink=3, snapshot=4, snapshot1=2, once=1))),
             ("deferred", dict(posts=0.4, samples=0.4, sends_per_txn=(1, 4), weights=W(defer=4, split=3, hold=3, csink=3, snapshot=4, snapshot1=2, once=1.5, accum=1)))],
@@ -150,7 +152,9 @@ PROFILES = {
     "C18": [("router", dict(n_defs=(4, 10), drops=0.3, gcs=0.3, weights=W(router=5, ssink=4, map=3, merge=3, hold=1)))],
     "C06": [("drops", dict(drops=0.8, gcs=0.5, memchecks=0.5, n_defs=(5, 14), n_txn=(4, 12),
                            weights=W(sloop=1.5, cloop=1.5, accum=2, collect=2, switchs=1.5, switchc=1, router=1, defer=1, lift2=2, hold=3, snapshot=3)))],
-    "C07": [("abandon-once-loops", dict(leakcheck=True, n_defs=(3, 8), n_txn=(1, 5), unlisten=0.2, no_switchc_in_loop=True,
+    "C07": [("periodic-switching", dict(n_defs=(4, 9), n_txn=(0, 2), n_listen=(1, 3), periodic=12, samples=0.0, obs=0.0, unlisten=0.0,
+                                        weights=W(switchdyn=6, switchs=3, switchc=2, csink=5, ssink=4, hold=2, map=2, accum=1, router=1))),
+            ("abandon-once-loops", dict(leakcheck=True, n_defs=(3, 8), n_txn=(1, 5), unlisten=0.2, no_switchc_in_loop=True,
                                         weights=W(sloop=5, cloop=2, once=5, snapshot=5, hold=4, accum=1.5, merge=2, map=1, ssink=3, csink=1))),
             ("abandon", dict(leakcheck=True, drops=0.4, gcs=0.3, memchecks=0.3, n_txn=(0, 6), unlisten=0.3, no_switchc_in_loop=True,
                              weights=W(sloop=1.5, cloop=1.5, accum=2, collect=2, switchs=1.5, switchc=1, router=1, defer=1, split=0.5, lift2=2, hold=3, snapshot=3, mapc=2)))],
@@ -160,7 +164,7 @@ PROFILES = {
 }
 
 
-def gen_scripts(pid, tier, seed, nquick=1200, nthorough=12000):
+def gen_scripts(pid, tier, seed, nquick=1200, nthorough=40000):
     rng = random.Random(seed * 7919 + int(pid[1:]))
     n = nquick if tier == "quick" else nthorough
     profs = PROFILES[pid]
@@ -203,6 +207,11 @@ def impl_predicates(pid, script, hl):
         if h.startswith("mem=BAD"): return f"line {j}: collector contract violated on the real graph: {h}"
         if h.startswith("wf=BAD"): return f"line {j}: the real node graph violates the scheduler theorem's hypotheses: {h}"
     if pid in ("C07",):
+        counts = [int(h[6:]) for h in hl if h.startswith("nodes=") and h[6:].isdigit()]
+        run_up = 0
+        for a, b in zip(counts, counts[1:]):
+            run_up = run_up + 1 if b > a else 0
+            if run_up >= 6: return f"the number of live nodes grows with every repetition of the same transaction pattern: {counts}"
         for j, h in enumerate(hl):
             if h.startswith("leak=") and h != "leak=0": return f"line {j}: {h} nodes alive after everything was dropped and collected"
     if pid in ("C14", "C01"):
@@ -227,10 +236,13 @@ def run_api_prop(pid, tier, seed, extra_corpus=()):
     runs, bad, rc, herr = compare(scripts)
     viols = []
     # 1. implementation-only predicates (first hit, minimised)
-    hit = None
+    hits = []
     for k, (hl, ml) in enumerate(runs):
         msg = impl_predicates(pid, scripts[k], hl)
-        if msg: hit = (k, msg); break
+        if msg: hits.append((k, msg))
+    # every corpus hit (they may be known findings) plus the first two generated ones
+    hits = [h for h in hits if h[0] < len(corp)] + [h for h in hits if h[0] >= len(corp)][:2]
+    hit = hits[0] if hits else None
     os.environ["API_SCRIPT_TIMEOUT_MS"] = "2000"
     seen_sigs = set()
     def add(kind, k, msg, pred):
@@ -246,12 +258,14 @@ def run_api_prop(pid, tier, seed, extra_corpus=()):
         if b: detail = f"\n# at `{s[b[0][1]]}`: implementation `{b[0][2]}`, specification S `{b[0][3]}`"
         viols.append({"what": msg, "found_input": True, "signature": sig,
                       "replay_text": f"# {kind}: {msg}{detail}\n" + "\n".join(s) + "\n"})
-    if hit:
-        k, msg = hit
+    for (k, msg) in hits:
         add("implementation-only predicate", k, msg, lambda c: loops_wellformed(c) and impl_predicates(pid, c, compare([c])[0][0][0]) is not None)
     # 2. implementation vs S (at most 3 distinct minimised disagreements)
-    for (k, j, h, m) in bad[:12]:
-        if len(viols) >= 3: break
+    ngen = 0
+    for (k, j, h, m) in bad:
+        if k >= len(corp):
+            if ngen >= 3: break       # corpus mismatches (possibly known findings) never use up the quota
+            ngen += 1
         add("implementation differs from the specification S", k, f"`{scripts[k][j] if j < len(scripts[k]) else '?'}`: implementation `{h}`, S `{m}`", differs)
     os.environ.pop("API_SCRIPT_TIMEOUT_MS", None)
     st = stats(gen)
@@ -261,6 +275,6 @@ def run_api_prop(pid, tier, seed, extra_corpus=()):
                    "each executed on the real library (harness api) and on the Lean specification S (driver spec), outputs compared line by line; non-trivial = has a listener and a send; distinct by script text",
            "samples": [" ; ".join(gen[0]), " ; ".join(gen[-1])],
            "correspondence": {"level": "L-api (implementation vs S)", "scripts": len(scripts), "disagreements": len(bad),
-                              "impl_only_predicate_hits": 1 if hit else 0},
+                              "impl_only_predicate_hits": len(hits)},
            "input_distribution": st}
     return {"coverage": cov, "violations": viols, "summary": f"L-api scripts={len(scripts)} disagreements={len(bad)}"}
